@@ -25,7 +25,8 @@ RULE = ("scenario = (program with an async contracted function (gated preconditi
         "concurrent calls with individually drawn verdicts (satisfying / violating precondition / violating "
         "postcondition / invariant broken); context-inheritance mode in {fresh context per task, context copied before "
         "the parent's first checked call, context copied AFTER the parent's first checked call, copy_context().run in a "
-        "worker thread}; driver in {emulated asyncio tasks, real threads with sync functions}). ALL interleavings of "
+        "worker thread, context copied while the parent is suspended in the body of a checked function and of a public "
+        "method of the shared object}; driver in {emulated asyncio tasks, real threads with sync functions}). ALL interleavings of "
         "the tasks' gate-to-gate segments are enumerated for 2 tasks (up to 4 segments each) and 3 tasks (2..3 "
         "segments each); Hypothesis draws the scenarios. Oracle: the verdict of every call (returned token / identity "
         "or class of the error and the contract it belongs to) under the schedule equals the verdict of the same call "
@@ -36,9 +37,13 @@ ASSUMPTIONS = ["pre-emption between two bytecodes inside the library's wrappers 
                "emulated tasks reproduce asyncio's context handling (Task.__step runs in the task's Context)"]
 KNOWN = {
     "D11": lambda bucket, case: "mode:copied-after" in bucket or "mode:thread-copied-after" in bucket,
+    # a task whose context was copied while a public method of the object is in flight skips that object's invariants:
+    # only the verdicts of calls on instance 0 that hinge on the invariant differ
+    "D29": lambda bucket, case: "mode:copied-mid-call" in bucket and bucket.endswith("|m:inv") and case.get("d29_only", False),
 }
 
-MODES = ["fresh", "copied-before", "copied-after", "thread-copied-after"]
+MODES = ["fresh", "copied-before", "copied-after", "thread-copied-after", "copied-mid-call"]
+ASYNC_ONLY_MODES = ("thread-copied-after", "copied-mid-call")
 
 
 def program(is_async=True):
@@ -163,6 +168,21 @@ def run_async_schedule(loaded, names, mode, schedule):
                     except StopIteration:
                         pass
                 parent_ctx.run(warm)
+            parents = []
+            if mode == "copied-mid-call":
+                # the parent is in the middle of two checked calls - suspended in the BODY of f0 and of inst0.m - when the
+                # contexts of the tasks are copied (tasks created by a running call: create_task / gather in a body)
+                def start_parents():
+                    for make, stop in ((lambda: loaded.mod.f0(x=run.tok("a:parent")), ("gate", "body", "f0")),
+                                       (lambda: ex.inst[0].m(x=run.tok("a:parent")), ("gate", "body", "K0.m"))):
+                        c = make()
+                        for _ in range(10):
+                            if c.send(None) == stop:
+                                break
+                        else:
+                            raise core.HarnessError("C12: the parent call did not reach its body gate")
+                        parents.append(c)
+                parent_ctx.run(start_parents)
             tasks = []
             for i, nme in enumerate(names):
                 op = make_op(nme, i)
@@ -214,8 +234,19 @@ def run_async_schedule(loaded, names, mode, schedule):
                 step(t)
                 if all(x["done"] for x in tasks):
                     break
+            def finish_parents():
+                run.tl.task = "parent"
+                for c in parents:
+                    try:
+                        for _ in range(10):
+                            c.send(None)
+                    except StopIteration:
+                        pass
+                    except BaseException:  # noqa - the tasks may have left the shared object broken
+                        pass
+            parent_ctx.run(finish_parents)
             box["outs"] = [t["out"] for t in tasks]
-            box["overlap"] = overlap
+            box["overlap"] = overlap or bool(parents)
         finally:
             V.end()
 
@@ -354,10 +385,17 @@ def check_scenario(ctx, names, mode, is_async, schedules):
         ctx.count("mode:" + mode)
         ctx.count("driver:" + ("asyncio-tasks" if is_async else "threads"))
         ctx.case(case, nt, sample=case)
+        diffs = [i for i, (e, o) in enumerate(zip(expect, outs)) if e != o]
+        # every difference is "the invariant of instance 0 was not checked for m:inv" (finding D29)?
+        case["d29_only"] = bool(diffs) and mode == "copied-mid-call" and all(
+            names[i] == "m:inv" and outs[i][0] == "ret" for i in diffs)
         for i, (e, o) in enumerate(zip(expect, outs)):
+            if e != o and "D29" in active and mode == "copied-mid-call" and names[i] == "m:inv" and o[0] == "ret":
+                ctx.excluded_by_known += 1  # finding D29, excluded by construction while its reproducer still fails
+                continue
             if e != o:
                 ctx.fail("verdict-depends-on-concurrency|mode:%s|%s|%s" % (mode, "async" if is_async else "threads",
-                                                                          names[i].split(":")[0]), case,
+                                                                          names[i]), case,
                          "calls %r, mode %s, %s, schedule %r: call %d (%s) alone gives %r, under this schedule %r" % (
                              names, mode, "emulated asyncio tasks" if is_async else "threads", list(sch), i, names[i], e, o))
                 return
@@ -373,7 +411,7 @@ def st_scenario(draw):
     names = [draw(st.sampled_from(sorted(CALLS))) for _ in range(n)]
     mode = draw(st.sampled_from(MODES))
     is_async = draw(st.integers(0, 3)) != 0
-    if not is_async and mode == "thread-copied-after":
+    if not is_async and mode in ASYNC_ONLY_MODES:
         mode = "copied-after"
     return names, mode, is_async
 
@@ -390,7 +428,7 @@ def run(ctx, tier, seed, shard, nshards):
     for names, is_async in FIXED:
         counts = [SEGMENTS[n] for n in names]
         for mode in MODES:
-            if not is_async and mode == "thread-copied-after":
+            if not is_async and mode in ASYNC_ONLY_MODES:
                 continue
             schedules = interleavings(counts)
             if not is_async:
